@@ -71,6 +71,12 @@ func checkC09(c *Ctx) {
 	c.Rule("C09-R14", "cells are encoded with the character set's encoder: wherever a screen's encoder and decoder are assigned, the encoder comes from NewEncoder and the decoder from NewDecoder (both have the same static type; the decoder used as encoder sends UTF-8 of Latin-1 code points, C1 bytes included, to an 8-bit terminal)")
 	c.Expect("C09-R14", 2)
 	checkTransformersNotSwapped(c, p, "C09-R14")
+	c.Rule("C09-R17", "no parameter-language residue: capability strings reach the frame buffer through terminfo's TPuts, which removes the $<n> markers (= C13-R15)")
+	c.Expect("C09-R17", 1)
+	checkCapabilitiesThroughStripper(c, p, "C09-R17")
+	c.Rule("C09-R18", "zero-width and format characters given as primary content are shown as blanks: SetContent stores the rune and the combining list as given (a zero-width primary rune moved into the combining list takes the unsanitised path to the terminal; = C08-R11)")
+	c.Expect("C09-R18", 2)
+	checkSetContentStoresWhatItIsGiven(c, p, "C09-R18")
 	c.Rule("C09-R15", "numeric parameters only: %d writes the decimal form of the number it pops, by strconv or by a helper decided by constant evaluation over -1000..70000 (a helper short of digits writes ':' ';' '<' or control bytes into the CSI; = C15-R10)")
 	c.Expect("C09-R15", 1)
 	c.asRule("C15-R10", "C09-R15", func() { checkDecimalOutput(c, p, "C15-R10") })
@@ -309,6 +315,37 @@ func classifyEmit(p *Prog, v ssa.Value, depth int) []emitSrc {
 	case *ssa.Extract:
 		if lk, ok := x.Tuple.(*ssa.Lookup); ok {
 			return classifyEmit(p, lk, depth+1)
+		}
+		// one result of a helper of the painter that builds the cell's text and says something about it
+		// (`str, narrow := t.cellText(mainc, combc)`)
+		if call, ok := x.Tuple.(*ssa.Call); ok {
+			if h := call.Call.StaticCallee(); h != nil && h.Pkg == p.Tcell && len(h.Blocks) > 0 && len(callsIn(h, func(nm string, _ *ssa.CallCommon) bool { return strings.HasSuffix(nm, "tScreen).encodeRune") })) > 0 {
+				var out []emitSrc
+				for _, r := range returnsOf(h) {
+					out = append(out, classifyEmit(p, derefCell(resultOf(r, x.Index)), depth+1)...)
+				}
+				if len(out) > 0 {
+					return out
+				}
+			}
+		}
+	case *ssa.BinOp:
+		// the cell's bytes with a blank appended (the second column of a wide rune shown as '?')
+		if x.Op == token.ADD {
+			all := append(classifyEmit(p, x.X, depth+1), classifyEmit(p, x.Y, depth+1)...)
+			okAll, hasPayload := true, false
+			for _, e := range all {
+				switch {
+				case e.kind == "payload":
+					hasPayload = true
+				case e.kind == "literal" && strings.Trim(e.lit, " ") == "":
+				default:
+					okAll = false
+				}
+			}
+			if okAll && hasPayload {
+				return []emitSrc{{kind: "payload"}}
+			}
 		}
 	case *ssa.Lookup:
 		if ref, _, ok := loadedField(x.X); ok && ref.Owner == "tcell.tScreen" {
